@@ -88,8 +88,36 @@ def check_property(prop, tier, seed):
             unstable.append(oid)
     for oid in sorted(set(unstable)):
         c['undecided'].append(f'obligation {oid} is unstable across SMT seeds')
+    # ---- bounded stand-ins: when a unit could not be decided (the code changed in a way the extraction / contracts do not
+    #      follow), the unit's registered real-code drivers are run on a scratch copy; a failing driver demonstrates a violation on
+    #      the real code (labelled bounded -- found by execution over a stated small domain, not by proof).  In the thorough tier
+    #      the drivers run always.
+    fallback_hits = []
+    fallback_runs = []
+    for u in runs:
+        meta = index.get(u.unit, {})
+        fbs = meta.get('fallback', [])
+        if not fbs:
+            continue
+        if not (u.undecided or tier == 'thorough'):
+            continue
+        from . import scratch
+        for drv in fbs:
+            if prop not in drv.get('props', [prop]):
+                continue
+            ok, info = scratch.run_replay_driver(drv)
+            fallback_runs.append({'unit': u.unit, 'driver': drv['test'], 'bound': drv.get('bound', ''), 'passed': ok, 'wall_s': info.get('wall_s')})
+            if ok is False:
+                fallback_hits.append((u, drv, info))
     # ---- replay search for violations (real code)
     violation_lines = []
+    for u, drv, info in fallback_hits:
+        o = R.Obligation(f'{u.unit}::bounded::{drv["test"]}', 'bounded', drv['test'], {prop}, drv.get('bound', ''))
+        d = {'message': 'bounded stand-in failed on the real code (unit undecided: ' + '; '.join(u.undecided)[:300] + ')',
+             'site': None, 'rendered': info.get('tail', ''), 'replayed': True, 'counterexample': info.get('failing_input'),
+             'replay_test': drv, 'replay_result': {k: v for k, v in info.items() if k != 'tail'}}
+        path = _write_replay(prop, o, d, u)
+        violation_lines.append(f'VIOLATION property={prop} replay={path}')
     for o, d, u in c['violations']:
         if hasattr(u, 'replay_violation'):
             u.replay_violation(o, d)
@@ -111,7 +139,7 @@ def check_property(prop, tier, seed):
     for o, d, u in c['unbaselined']:
         c['undecided'].append(f'{o.id} fails and is neither in the baseline nor a known finding: {d["message"]} at {d.get("site")}')
     wall = time.time() - t0
-    write_evidence(prop, tier, seed, runs, c, wall, index, violation_lines)
+    write_evidence(prop, tier, seed, runs, c, wall, index, violation_lines, fallback_runs)
     for ln in known_lines:
         print(ln)
     for r in c['undecided']:
@@ -129,7 +157,7 @@ def check_property(prop, tier, seed):
     return 0
 
 
-def write_evidence(prop, tier, seed, runs, c, wall, index, violation_lines):
+def write_evidence(prop, tier, seed, runs, c, wall, index, violation_lines, fallback_runs=()):
     os.makedirs(EVID, exist_ok=True)
     known_ids = sorted(set(o.id for o, _, _ in c['known']))
     obs = [o for o in c['obligations'] if o.id not in known_ids]
@@ -193,7 +221,7 @@ def write_evidence(prop, tier, seed, runs, c, wall, index, violation_lines):
             'discharged_by_backend': per_backend,
             'backends': backends,
             'solver': solver_ms,
-            'bounded': bounded,
+            'bounded': bounded + [dict(fr, label='bounded (never counted as discharged)') for fr in fallback_runs],
             'not_under_contract': not_under,
             'rewrites': rewrites,
             'canaries': canaries,
